@@ -295,11 +295,12 @@ Fixpoint jrun (c : jcfg) (l : bytes) (acc : list lexeme) : res (list lexeme) * Z
   end.
 Definition jlexemes (allow : bool) (s : bytes) : res (list lexeme) * Z := jrun (jcfg0 allow) s [].
 
+Definition not_end_top (x : lexeme) : bool := negb (lext_eqb (fst (fst x)) EndTop).
 (* Document.Check: error 203 when no lexeme at all was produced *)
 Definition jcheck (allow : bool) (s : bytes) : res unit * Z :=
   match jlexemes allow s with
   | (Ok ls, i) =>
-    match filter (fun x => negb (lext_eqb (fst (fst x)) EndTop)) ls with
+    match filter not_end_top ls with
     | [] => (Err 203, -1)
     | _ => (Ok tt, i)
     end
